@@ -132,4 +132,37 @@ def initializePoolV2 (keyA keyB : Nat) (a b : MintIn) (price ts tierTs fee proto
         | .error e => .error e.name
         | .ok p => .ok (p, (badgeInit a.badge && a.badge == 5) || (badgeInit b.badge && b.badge == 5))
 
+/-- `is_valid_trade_enable_timestamp` -/
+def isValidTradeEnableTimestamp (te : Option Nat) (now : Nat) (permissioned : Bool) : Bool :=
+  match te with
+  | none => true
+  | some t =>
+    if !permissioned then false
+    else if t > now then decide (t - now ≤ MAX_TRADE_ENABLE_TIMESTAMP_DELTA)
+    else decide (now - t ≤ 30)
+
+/-- `initialize_pool_with_adaptive_fee` (accounts struct, then the handler), for well-formed accounts.
+    `authMode`: 0 the tier's initialize-pool authority signs (any signer for a permission-less tier) ·
+    1 a stranger signs · 2 the key in the authority slot does not sign.
+    Result: pool data, non-transferable-position flag, the Oracle's trade-enable time. -/
+def initializePoolWithAdaptiveFee (keyA keyB : Nat) (a b : MintIn) (price proto now : Nat) (te : Option Nat)
+    (authMode : Nat) (permissioned : Bool) (ts fee : Nat) (c : AfConstants) : Except String (PoolD × Bool × Nat) :=
+  if authMode = 2 then .error "AccountNotSigner"
+  else if a.badge = 2 ∨ b.badge = 2 then .error "ConstraintSeeds"
+  else if permissioned && authMode = 1 then .error "ConstraintRaw"
+  else
+    match verifySupportedTokenMint a with
+    | .error e => .error e
+    | .ok _ =>
+      match verifySupportedTokenMint b with
+      | .error e => .error e
+      | .ok _ =>
+        if !isValidTradeEnableTimestamp te now permissioned then .error "InvalidTradeEnableTimestamp"
+        else
+          match initializePoolChecks keyA keyB price ts fee proto with
+          | .error e => .error e.name
+          | .ok p =>
+            if !validateConstants ts c then .error "InvalidAdaptiveFeeConstants"
+            else .ok (p, (badgeInit a.badge && a.badge == 5) || (badgeInit b.badge && b.badge == 5), te.getD 0)
+
 end WP
